@@ -33,6 +33,10 @@ type histOpts struct {
 	// operations; blocks then end within a few bytes of the end of the data,
 	// where the parsers read into the margin behind it.
 	tinyPct int
+	// suffixPct: percentage of histories whose text comes from the
+	// structured families that stress the suffix sorter (Fibonacci, runs,
+	// padded records, ...); for the parsers built on suffix.Sort.
+	suffixPct int
 }
 
 func defaultHistOpts() histOpts {
@@ -92,6 +96,8 @@ func genParserHistory(t *rapid.T, x *parserExec, o histOpts) {
 	var text []byte
 	if tiny {
 		text = genText(t, "text", rapid.IntRange(2, 12).Draw(t, "tinyText"))
+	} else if o.suffixPct > 0 && rapid.IntRange(0, 99).Draw(t, "suffixText") < o.suffixPct {
+		text, _ = genSuffixText(t, o.maxText)
 	} else {
 		text = genText(t, "text", o.maxText, cc.BlockSize, cc.BlockSize+1, bsz, bsz-1, bsz+1, cc.WindowSize, cc.WindowSize+1)
 	}
